@@ -365,7 +365,8 @@ def codegen_shirokov_inv(x, symbolic=False):
             power_idx = i - j - 2
             xi_diff = powers[power_idx] * cs[j]
             xi = xi - xi_diff
-        if xi.grades == (0,):
+        # The n-th one is a scalar (Cayley-Hamilton), also when vanishing coefficients of other grades are still stored.
+        if i == n or xi.grades == (0,):
             break
         xs.append(xi)
         cs.append(s if (s := xi.e) == 0 else n * s / i)
